@@ -1168,6 +1168,7 @@ fn fault_env(r: &mut Prng, pool: bool) -> Env {
         entropy_seed: r.next_u64() >> 20,
         clock_seed: r.next_u64() >> 20,
         context: *r.pick(&[Context::External, Context::InWorker]),
+        cpus: *r.pick(&[1usize, 1, 2]),
         replay: None,
     }
 }
